@@ -82,3 +82,53 @@ Section Enc.
   Definition encode_all (st0 : St) (text : str) : list B :=
     let '(st, x) := feed st0 text in x ++ flush st.
 End Enc.
+
+(* ---- operation histories on one TemplateStream: enable_buffering(n), disable_buffering(), next().
+   The stream object keeps the underlying generator (the pieces not yet consumed) and the current
+   mode; enable_buffering creates a fresh buffered generator over what is left, whose local buffer is
+   empty whenever it is suspended at a yield, so switching modes between two next() calls loses nothing. *)
+
+(* one chunk of the buffered generator and the pieces left; None when no non-empty piece is left
+   (the generator returns; the trailing empty pieces are consumed) *)
+Fixpoint next_chunk_go (size : nat) (buf : list str) (c : nat) (ps : list str) : option (str * list str) :=
+  match ps with
+  | [] => if Nat.eqb c 0 then None else Some (concat (rev buf), [])
+  | x :: r =>
+      let buf' := x :: buf in
+      let c' := if nonempty x then S c else c in
+      if Nat.ltb c' size then next_chunk_go size buf' c' r else Some (concat (rev buf'), r)
+  end.
+Definition next_chunk (size : nat) (ps : list str) : option (str * list str) := next_chunk_go size [] 0 ps.
+
+Inductive sop := OEnable (n : nat) | ODisable | ONext.
+Inductive sout := SChunk (s : str) | SStop | SValueError | SNone.
+Record sstate := { mode : option nat; rest : list str }.
+
+Definition sstep (st : sstate) (o : sop) : sstate * sout :=
+  match o with
+  | OEnable n => if Nat.leb n 1 then (st, SValueError) else ({| mode := Some n; rest := rest st |}, SNone)
+  | ODisable => ({| mode := None; rest := rest st |}, SNone)
+  | ONext =>
+      match mode st with
+      | None => match rest st with
+                | [] => (st, SStop)
+                | p :: r => ({| mode := None; rest := r |}, SChunk p)
+                end
+      | Some n => match next_chunk n (rest st) with
+                  | None => ({| mode := Some n; rest := [] |}, SStop)
+                  | Some (c, r) => ({| mode := Some n; rest := r |}, SChunk c)
+                  end
+      end
+  end.
+
+Fixpoint srun (st : sstate) (ops : list sop) : sstate * list sout :=
+  match ops with
+  | [] => (st, [])
+  | o :: r => let '(st1, x) := sstep st o in let '(st2, xs) := srun st1 r in (st2, x :: xs)
+  end.
+
+Definition out_text (o : sout) : str := match o with SChunk s => s | _ => [] end.
+
+(* iterating what is left of the stream to the end *)
+Definition sdrain (st : sstate) : list str :=
+  match mode st with None => rest st | Some n => buffered_go n [] 0 (rest st) end.
